@@ -49,7 +49,11 @@ def s1():
     return 1
 
 
-CALLABLES = [("f", f), ("g", g), ("lam1", lam1), ("lam2", lam2), ("h1", h1), ("h2", h2), ("partial(f,1)", functools.partial(f, 1)), ("partial(f,2)", functools.partial(f, 2))]
+from earthkit.workflows import backends as _backends  # noqa: E402
+
+# two backend functions that are not defined on Backend: the module creates their dispatchers on first use
+CALLABLES = [("f", f), ("g", g), ("lam1", lam1), ("lam2", lam2), ("h1", h1), ("h2", h2), ("partial(f,1)", functools.partial(f, 1)), ("partial(f,2)", functools.partial(f, 2)),
+             ("backends.norm", _backends.norm), ("backends.diff", _backends.diff)]
 ARGS = [1, "1", 1.0, True, "a", None, "1, 2", (1, 2), [1, 2], -1]
 
 
@@ -187,10 +191,11 @@ class Names(Harness):
                 if comp1[0] != comp2[0] and comp1[1:] == comp2[1:]:
                     fn1, fn2 = CALLABLES[params["c1"]][1], CALLABLES[params["c2"]][1]
                     n_1, n_2 = getattr(fn1, "__name__", ""), getattr(fn2, "__name__", "")
+                    pair = f"{CALLABLES[params['c1']][0]}/{CALLABLES[params['c2']][0]}"
                     if n_1 == n_2 == "<lambda>":
-                        raise Violation("distinct-lambdas-same-node-name", f"{CALLABLES[params['c1']][0]} / {CALLABLES[params['c2']][0]} with {d1!r}")
+                        raise Violation(f"distinct-lambdas-same-node-name:{pair}", f"{pair} with {d1!r}")
                     if n_1 == n_2:
-                        raise Violation("distinct-callables-equal-__name__-same-node-name", f"{CALLABLES[params['c1']][0]} / {CALLABLES[params['c2']][0]} with {d1!r}")
+                        raise Violation(f"distinct-callables-equal-__name__-same-node-name:{pair}", f"{pair} with {d1!r}")
                 raise Violation("different-computations-same-node-name", f"{CALLABLES[params['c1']][0]}{d1!r} / {CALLABLES[params['c2']][0]}{d2!r} -> {n1.name}")
             # union of actions: one node per distinct computation, lowering by name unambiguous
             a1 = fluent.Action(xr.DataArray(np.array([n1], dtype=object), dims=["d"]))
@@ -260,6 +265,10 @@ UNARY = [
     ("map", lambda a, d: a.map(f)), ("expand", lambda a, d: a.expand("e", internal_dim=0, dim_size=2)),
     ("select", lambda a, d: a.select({d: a.nodes.coords[d].data[0]})), ("isel", lambda a, d: a.isel({d: 0})),
     ("add-scalar", lambda a, d: a.add(2)), ("transform", lambda a, d: a.transform(lambda x, c: x.multiply(c), [(2,), (3,)], "t")),
+    # the per-parameter function returns a selection that keeps every node (a window spanning the whole dimension)
+    ("transform-select-all", lambda a, d: a.transform(lambda x, vals: x.select({d: vals}), [(list(a.nodes.coords[d].data),)], "window")),
+    ("select-all", lambda a, d: a.select({d: list(a.nodes.coords[d].data)})),
+    ("expand-then-other-axis", lambda a, d: (a.expand("e", internal_dim=0, dim_size=2), a.expand("e2", internal_dim=1, dim_size=2))),
 ]
 BINARY = [("add", lambda a, b: a.add(b)), ("subtract", lambda a, b: a.subtract(b)), ("multiply", lambda a, b: a.multiply(b)), ("divide", lambda a, b: a.divide(b)),
           ("power", lambda a, b: a.power(b)), ("join-new", lambda a, b: a.join(b, "j")), ("join-match", lambda a, b: a.join(b, "j", match_coord_values=True)),
@@ -296,10 +305,28 @@ class Operands(Harness):
                 name, op = UNARY[params["op"]]
                 d = ch.choose(list(dims), "dim")
                 ch.note("case", {"op": name, "shape": list(shape), "dim": d})
+
+                def result_names(r):
+                    rs = r if isinstance(r, tuple) else (r,)
+                    return [sorted(n.name for n in x.nodes.data.flatten()) for x in rs]
+
+                first = None
                 try:
-                    op(A, d)
+                    first = result_names(op(A, d))
                 except Exception:
                     pass  # whether the operation is applicable is not the subject; the operand must be intact either way
+                if first is not None and name == "expand-then-other-axis" and set(first[0]) & set(first[1]):
+                    raise Violation("different-computations-same-node-name", f"expanding along internal axis 0 and along internal axis 1 gives nodes of the same name: {sorted(set(first[0]) & set(first[1]))[:2]}")
+                if first is not None:
+                    # building the same program again - after other programs were built in this process - gives the same names
+                    try:
+                        other = UNARY[(params["op"] + 1) % len(UNARY)][1]
+                        other(src_action("z", shape, dims), d)
+                    except Exception:
+                        pass
+                    again = result_names(op(src_action("a", shape, dims), d))
+                    if again != first:
+                        raise Violation(f"same-program-different-names:{name}", f"{name} on shape {shape}: names depend on what was built before")
                 if snapshot(A) != before_a:
                     raise Violation(f"operation-mutated-its-action:{name}", f"{name} on shape {shape} dim {d}: {before_a[:3]} -> {snapshot(A)[:3]}")
             else:
